@@ -1056,7 +1056,7 @@ theorem satAddU_not_laneWise : ¬ LaneWise2 32 (List.zipWith (satAddU (w := 8)))
   have := h (List.replicate 32 200#8) (List.replicate 32 100#8) rfl rfl
   revert this; decide
 
-/-- **known finding vector-extension.uninitialised-lanes**: the register type of the vector-extension contexts is declared
+/-- **repaired defect vector-extension.uninitialised-lanes** (fix commit 6098ed3: `vector_size(bit_width / 8)`; `vecExtTypeLanes` is the lane count of the declaration BEFORE the repair, kept as the regression witness): the register type of the vector-extension contexts is declared
     with `vector_size(bit_width / sizeof(T))` BYTES: for `vector_128` and `int16_t` that is 32 lanes of which 8 are ever
     loaded; the other 24 are indeterminate and are multiplied / added with the rest (UBSan: signed integer overflow on
     values that are not in the input).  Results are unaffected (only the filled lanes are stored). -/
@@ -1067,7 +1067,7 @@ theorem vectorExtension_lanes_counterexample :
 theorem vectorExtension_lanes_exact_iff :
     ∀ bw ∈ [128, 256, 512], ∀ sz ∈ [1, 2, 4, 8], (vecExtTypeLanes bw sz = vecExtUsedLanes bw sz ↔ sz = 8) := by decide
 
-/-- **known finding vector-extension.signed-lane-overflow**: a vector-extension lane computes in `T` itself, the scalar functor
+/-- **repaired defect vector-extension.signed-lane-overflow** (fix commit 98bc9d0: the lanes now compute in the unsigned type of the same width, which is `IOp.lane`; `vecExtLane` is the lane arithmetic BEFORE the repair, kept as the regression witness): a vector-extension lane computes in `T` itself, the scalar functor
     in the promoted type: `int16_t(32767) + 1` is defined for the scalar evaluator (−32768, as NumPy) and signed overflow —
     undefined — on a `vector_128` lane.  (Values agree in practice: g++ wraps.) -/
 theorem vecExtLane_signed_overflow_counterexample :
